@@ -19,14 +19,16 @@ if not checks: checks = [meta["property"]]
 out = {"at": time.strftime("%F %T"), "repo_head": subprocess.check_output("git -C /repo rev-parse --short HEAD", shell=True, text=True).strip()}
 if not os.path.exists(WT): sh("git -C /repo worktree add --detach %s HEAD" % WT)
 reset()
-run = open(os.path.join(d, "demo", "RUN.txt")).read().strip().splitlines()
-run = [l for l in run if l.strip() and not l.strip().startswith("#")][-1]
+lines = [l for l in open(os.path.join(d, "demo", "RUN.txt")).read().splitlines() if l.strip() and not l.strip().startswith("#")]
+lines = [re.sub(r"/tmp/mut-C\d+-out/m\d+", d, l) for l in lines if not re.match(r"\s*(git apply|cd /tmp/mut|git -C)", l)]
+run = "set -e; " + "; ".join(lines)
 def put_demo():
+    if any(l.strip().startswith("cp ") for l in lines):
+        return  # RUN.txt places the demo files itself
     for root, _, files in os.walk(os.path.join(d, "demo")):
         for f in files:
-            if f == "RUN.txt": continue
+            if not f.endswith(".go"): continue
             rel = os.path.relpath(os.path.join(root, f), os.path.join(d, "demo"))
-            # demo test files are placed next to the package they name in RUN.txt, or by their relative path
             dst = os.path.join(WT, rel)
             if os.sep not in rel:
                 m = re.search(r"\./(internal|pkg|cmd)/[\w/]+", run)
